@@ -61,10 +61,20 @@ def run(chk):
     for m in ([0, 1, 2, 3, 5] if quick else [0, 1, 2, 3, 4, 5, 8, 16]):
         spk, script, ctrl = c05.build(rng, m, ["rnd"], script=b"\x51" + bytes([G.OP["NOP"]]) * 2)
         spend_jobs.append(c05.mkjob(rng, "ls:commit-m%d" % m, spk, script, ctrl))
+    # flag modifications that change which sections exist (legacy types only: the set-up of witness types ignores flags, C03)
+    for drop in ("P2SH", "CLEANSTACK", "NULLDUMMY"):
+        for typ in ("p2sh", "p2pkh", "multisig"):
+            c = gen_spend.SpendCase(rng, typ, "valid", 1, 0, 0)
+            jj = drivers.SessionJob("ls:%s:-%s" % (typ, drop), b"", [], [f for f in STANDARD if f != drop], "BASE", auto=True,
+                                    txctx={"tx": c.tx.hex(), "txin": c.funding.hex(), "select": -1})
+            jj.fmods = "-" + drop
+            spend_jobs.append(jj)
     for j in spend_jobs:
         n += 1
         ev = j.open_event(); ev["repl"] = True; ev["hist"] = True; ev["cmp"] = CMP; ev["id"] = "r%d:%s" % (n, j.id)
         argv = ["--tx=" + j.txctx["tx"], "--txin=" + j.txctx["txin"]] + (["--select=%d" % j.txctx["select"]] if j.txctx.get("select", -1) >= 0 else [])
+        if hasattr(j, "fmods"):
+            argv = ["-f" + j.fmods] + argv
         for rep in range(2):
             e2 = dict(ev); e2["id"] = ev["id"] + ":%d" % rep
             cmds = ["step"] * 45 if rep == 0 else hist(rep, 30)
